@@ -35,7 +35,8 @@ RULE = (
     "(NaN, +-inf, +-10**400, 2**63, str/int/float/dict/list subclasses, defaultdict / __missing__ dicts / OrderedDict / MappingProxyType / UserDict / UserList / "
     "UserString / deque / range / generator / Decimal / Fraction / UUID / date objects / Ellipsis / a type / a function, tuple, bytes, bytearray, set, frozenset, complex, "
     "object(), dicts with int/None/tuple/bytes/mixed keys, 60-deep list, unhashable values) and each JSON atom / coercible "
-    "string; options: coerce x additional_properties x fall_back_on_default x no_copy (16 vectors at level<=1, 4 at level 2). "
+    "string; options: coerce x additional_properties x fall_back_on_default x no_copy (16 vectors at level<=1, 4 at level 2), plus settings.deserialization."
+    "override_dataclass_constructors on three of these vectors (one at level 2). "
     "Oracle: returns or raises ValidationError whose .errors is computable and json-serialisable; input snapshot (structure, "
     "values, container identities) and class __dict__ digests unchanged. distinct_nontrivial counts distinct "
     "(ctor-pair shape, options, wild atom kind, position depth, outcome) tuples."
@@ -279,14 +280,22 @@ def run_type(i, label, spec, tier, st):
     digest0 = class_digest(rz.module)
     ctx = case.ctx()
     sk = skeletons(spec, ctx)
-    opts = OPTS16 if lvl <= 1 else OPTS4
-    for co, ap, fb, nc in opts:
+    opts = [o + (False,) for o in (OPTS16 if lvl <= 1 else OPTS4)]
+    # settings.deserialization.override_dataclass_constructors: objects built without calling __init__
+    opts += [(False, False, False, True, True)] + ([(False, False, False, False, True), (True, True, False, True, True)] if lvl <= 1 else [])
+    for co, ap, fb, nc, ov in opts:
         try:
-            method = apischema.deserialization_method(rz.tp, coerce=co, additional_properties=ap, fall_back_on_default=fb, no_copy=nc)
+            if ov:
+                apischema.settings.deserialization.override_dataclass_constructors = True
+            try:
+                method = apischema.deserialization_method(rz.tp, coerce=co, additional_properties=ap, fall_back_on_default=fb, no_copy=nc)
+            finally:
+                if ov:
+                    apischema.settings.deserialization.override_dataclass_constructors = False
         except Exception:
             st.count("compile_error(C01 reports it)")
             break
-        optkey = (co, ap, fb, nc)
+        optkey = (co, ap, fb, nc) + (("override_ctor",) if ov else ())
         seen = set()
         for s in sk:
             check_one(case, method, copy.deepcopy(s), st, optkey, "skeleton", 0)
